@@ -48,10 +48,11 @@ def mainList (fast : Bool) (s : StdCsf) (L : Nat → Nat) (sigC : Bytes) (blocks
     (enc : Option EncPart) : List CsfCmd :=
   if fast then mainFast s L sigC blocksD sigD enc else mainStd s L sigC blocksD sigD enc
 
-/-- the configuration's command list (as loaded: signatures empty, no blocks, no MAC yet) is the standard or the
+/-- the configuration's command list (as loaded: signatures empty, no blocks, no MAC yet; ANY data references `L0` —
+    `load_from_config` leaves the ones of its last `update`, the builder re-assigns them) is the standard or the
     fast-authentication chain with Set / Unlock / NOP commands woven into the gaps -/
-structure GenCfg (c : Cfg) (s : StdCsf) (fast : Bool) (gaps : List (List Cmd)) : Prop where
-  cmds : c.cmds = weave gaps (mainList fast s (fun _ => 0) (sigBlob c.version []) [] (sigBlob c.version [])
+structure GenCfg (c : Cfg) (s : StdCsf) (fast : Bool) (gaps : List (List Cmd)) (L0 : Nat → Nat) : Prop where
+  cmds : c.cmds = weave gaps (mainList fast s L0 (sigBlob c.version []) [] (sigBlob c.version [])
             (if isEnc c.flags then some ⟨secretKeyLocN c.ils c.app.length c.start, [], none⟩ else none))
   gaps : ∀ g ∈ gaps, ∀ e ∈ g, isExtra e = true
   srkSrc : s.srkSrc ≤ 3
@@ -109,17 +110,25 @@ def crtBlobB (d : Bytes) : Bool :=
   | _ :: _ :: _ :: p :: body => d == hdr Spec.tagCRT d.length p.toNat ++ body
   | _ => false
 
-def shapeOk (c : Cfg) (s : StdCsf) (fast : Bool) (gaps : List (List Cmd)) : Bool :=
-  decide (c.cmds = weave gaps (mainList fast s (fun _ => 0) (sigBlob c.version []) [] (sigBlob c.version [])
+def shapeOk (c : Cfg) (s : StdCsf) (fast : Bool) (gaps : List (List Cmd)) (L0 : Nat → Nat) : Bool :=
+  decide (c.cmds = weave gaps (mainList fast s L0 (sigBlob c.version []) [] (sigBlob c.version [])
             (if isEnc c.flags then some ⟨secretKeyLocN c.ils c.app.length c.start, [], none⟩ else none))) &&
   gaps.all (fun g => g.all isExtra) && decide (s.srkSrc ≤ 3) && decide (2 ≤ s.imgSlot) && decide (s.imgSlot ≤ 5) &&
   decide (s.kek ≤ 3) && decide (s.keySlot ≤ 3) && crtBlobB s.srkBlob && crtBlobB s.csfCert && crtBlobB s.imgCert
 
-/-- `some (s, fast, gaps)`: the command list of the configuration is `GenCfg c s fast gaps` -/
-def genShape (c : Cfg) : Option (StdCsf × Bool × List (List Cmd)) :=
+/-- the data references as loaded, read off the mandatory commands -/
+def guessLocs (fast : Bool) (m : List CsfCmd) : Nat → Nat := fun k =>
+  if fast then (if k = 1 then fld m 0 5 else if k = 3 then fld m 1 5 else if k = 5 then fld m 2 5 else fld m 4 5)
+  else (if k = 1 then fld m 0 5 else if k = 2 then fld m 1 5 else if k = 3 then fld m 2 5 else if k = 4 then fld m 3 5
+        else if k = 5 then fld m 4 5 else fld m 6 5)
+
+/-- `some (s, fast, gaps, L0)`: the command list of the configuration is `GenCfg c s fast gaps L0` -/
+def genShape (c : Cfg) : Option (StdCsf × Bool × List (List Cmd) × (Nat → Nat)) :=
   let u := unweave (c.cmds.length + 1) c.cmds
-  if shapeOk c (guessCsf false u.2) false u.1 then some (guessCsf false u.2, false, u.1)
-  else if shapeOk c (guessCsf true u.2) true u.1 then some (guessCsf true u.2, true, u.1)
+  if shapeOk c (guessCsf false u.2) false u.1 (guessLocs false u.2) then
+    some (guessCsf false u.2, false, u.1, guessLocs false u.2)
+  else if shapeOk c (guessCsf true u.2) true u.1 (guessLocs true u.2) then
+    some (guessCsf true u.2, true, u.1, guessLocs true u.2)
   else none
 
 end SpsdkVerif.Hab
